@@ -81,6 +81,16 @@ func c06Case(c *rep.Ctx, r c06Replay) {
 		os.Symlink(target, link)
 		afterCall = func() { os.Remove(link) }
 		opts[0] = gtree.WithTargetDir(link)
+	case "symlink-dotdot":
+		// "<dir>/link-up/../target": as text that is <dir>/target; following the link first would lead elsewhere
+		dir := filepath.Dir(target)
+		os.MkdirAll(filepath.Join(dir, "sibling", "deep"), 0o755)
+		os.MkdirAll(filepath.Join(dir, "sibling", "target"), 0o755)
+		link := filepath.Join(dir, "link-up")
+		os.Symlink(filepath.Join(dir, "sibling", "deep"), link)
+		before = fsx.Snapshot(j.Root)
+		modesBefore = fsx.DirModes(j.Root)
+		opts[0] = gtree.WithTargetDir(link + "/../target")
 	case "given-twice":
 		// the later option counts
 		opts = []gtree.Option{gtree.WithTargetDir(""), gtree.WithTargetDir(filepath.Dir(target)), nil, gtree.WithFileExtensions(r.Exts), gtree.WithTargetDir(target)}
@@ -280,10 +290,15 @@ func init() {
 						b.Target = "missing"
 						c06Case(c, b)
 						if n <= 3 {
-							for _, tg := range []string{"cwd-empty-option", "cwd-no-option", "trailing-slash", "relative", "given-twice", "cwd-given-last", "symlink", "mode-0700", "mode-0775"} {
+							for _, tg := range []string{"cwd-empty-option", "cwd-no-option", "trailing-slash", "relative", "given-twice", "cwd-given-last", "symlink", "mode-0700", "mode-0775", "symlink-dotdot"} {
 								b := base
 								b.Target = tg
 								c06Case(c, b)
+								if tg == "symlink-dotdot" || tg == "symlink" || tg == "relative" {
+									b.Extra = "massive"
+									c06Case(c, b)
+									b.Extra = ""
+								}
 								if len(f) == 1 {
 									b.Route = "root"
 									c06Case(c, b)
